@@ -654,22 +654,32 @@ class SBV:
 
 
 class SymTable:
-    """Read-only table indexed by an SBV: a z3 function symbol with the real contents as ground facts
-    (as an ITE chain, which z3 handles far better than Array/Store here)."""
+    """Read-only table indexed by an SBV: a z3 function symbol with the *real* contents asserted as
+    ground facts on the path's solver (EUF+BV; far faster here than ITE chains or Array/Store)."""
 
     def __init__(self, values, width=8, name="tbl"):
         self.values = [int(v) for v in values]
         self.width = width
         self.name = name
+        self._f = {}
+        self._asserted = None
 
     def __len__(self):
         return len(self.values)
 
+    def fn(self, iw):
+        if iw not in self._f:
+            self._f[iw] = z3.Function(f"{self.name}_{iw}", z3.BitVecSort(iw), z3.BitVecSort(self.width))
+        return self._f[iw]
+
     def term(self, idx):
-        e = z3.BitVecVal(self.values[-1], self.width)
-        for i in range(len(self.values) - 2, -1, -1):
-            e = z3.If(idx == i, z3.BitVecVal(self.values[i], self.width), e)
-        return e
+        iw = idx.size()
+        f = self.fn(iw)
+        c = ctx()
+        if self._asserted is not c:
+            self._asserted = c
+            c.add(*[f(z3.BitVecVal(i, iw)) == z3.BitVecVal(v, self.width) for i, v in enumerate(self.values)])
+        return f(idx)
 
     def __getitem__(self, i):
         if isinstance(i, SBV):
@@ -735,6 +745,13 @@ def s_close(a, b, rel=1e-9):
         tol = lift(rel) * (1 + z3.If(eb >= 0, eb, -eb))
         return SBool(z3.And(ea - eb <= tol, eb - ea <= tol))
     return abs(a - b) <= rel * (1 + abs(b))
+
+
+def s_div(a, b):
+    """Division for use in *clauses* (never forks or raises): z3's total division on terms."""
+    if isinstance(a, SNum) or isinstance(b, SNum):
+        return SNum(lift(a) / lift(b))
+    return a / b if b != 0 else 0.0
 
 
 def is_sym(x):
